@@ -18,6 +18,8 @@ Jobs of one run:
      code and rebuilds the flat graph with the public compile_network/emit/build steps.
  (4) SIMULATOR builder: `progsim` runs `flow.sim().compiled()` per program (SimBuilder emission,
      partitioning, rustc through the trybuild project), panics caught.
+ (4b) the emitted function of every single-location program is instantiated with channel inputs
+     and run for 4 ticks (forces monomorphisation, executes the generated glue); a panic is logged.
  (5) TLC validates the whole log against HydroProgTrace: WellTyped(term) is re-evaluated on the
      logged term; for every well-typed program both builders must succeed, the emitted code must
      compile, and every emitted graph must satisfy Partition.tla (Accept = no same-tick cycle,
@@ -41,7 +43,7 @@ PROPS = ["C41"]
 ENGINE = "spec/HydroProg: typed grammar of Hydro programs (TLC enumerates / samples all well-typed terms), rendered to Rust against the real API; production (generate_embedded + rustc) and simulator (flow.sim().compiled()) builders run per program with panics caught; TLC validates verdicts and every emitted DFIR graph against HydroProg.tla + Partition.tla"
 MANIFEST = {
     "C41": {
-        "text": "HydroProg.tla defines well-typed Hydro programs for a fragment of the API (40 operators: map/filter/flat_map/unique/enumerate/sort, fold/reduce/count/max/first, singleton and optional operators, keyed fold/reduce, batch/snapshot/all_ticks/latest/defer_tick, chain/merge/join/cross_singleton/filter_if_some/zip/unwrap_or, singleton references (by_ref), tick cycles, forward references with the documented no-synchronous-cycle precondition, process-to-process and process-cluster-process network hops, tees). TLC enumerates every well-typed program up to 4 (thorough 5) statements and samples larger ones (up to 9 statements); a coverage-greedy sample (40 quick / 300 thorough, incl. 10 hand-written) is rendered to Rust and compiled with the production builder (generate_embedded -> rustc, emitted code linked into the harness) and the simulator builder (flow.sim().compiled()); TLC re-evaluates WellTyped on each logged term and requires: both builders succeed, emitted Rust compiles, each emitted per-location DFIR graph is accepted by Partition.tla (no same-tick cycle, well-formed partition, order, delay marks, references).",
+        "text": "HydroProg.tla defines well-typed Hydro programs for a fragment of the API (40 operators: map/filter/flat_map/unique/enumerate/sort, fold/reduce/count/max/first, singleton and optional operators, keyed fold/reduce, batch/snapshot/all_ticks/latest/defer_tick, chain/merge/join/cross_singleton/filter_if_some/zip/unwrap_or, singleton references (by_ref), tick cycles, forward references with the documented no-synchronous-cycle precondition, process-to-process and process-cluster-process network hops, tees). TLC enumerates every well-typed program up to 4 (thorough 5) statements and samples larger ones (up to 9 statements); a coverage-greedy sample (40 quick / 300 thorough, incl. 10 hand-written) is rendered to Rust and compiled with the production builder (generate_embedded -> rustc, emitted code linked into the harness) and the simulator builder (flow.sim().compiled()); the emitted dataflow of every single-location program is also instantiated and run for 4 ticks. TLC re-evaluates WellTyped on each logged term and requires: both builders succeed, emitted Rust compiles and does not panic when run, each emitted per-location DFIR graph is accepted by Partition.tla (no same-tick cycle, well-formed partition, order, delay marks, references).",
         "note": "Bounded: programs of <= 9 statements over the closed operator/closure vocabulary, two processes + one cluster, one tick per process, ExactlyOnce streams, i32 / (i32,i32) elements. Graphs built by the simulator builder are not observable through the public API (only its verdict incl. rustc). The flat graph of the production builder is rebuilt from a deep clone of the same IR with the public compile steps; equality of the re-partitioned and the emitted graph is checked.",
         "technique": "TLA+ specification (typing rules) enumerated by TLC + structure/trace validation of the real code generators' outputs by TLC",
         "design_ref": "DESIGN.md §6.18",
